@@ -12,8 +12,9 @@
         max(pulled0, Need(demand)) + 2 * (number of stages)
    where pulled0 is what construction consumed (Drop is eager by definition), demand is the
    number of output elements the consumer has asked about so far, and Need(c) is the shortest
-   source prefix whose eager output already has c elements - the whole source when there is no
-   c-th element (only then must the source be read to its end). *)
+   source prefix that settles whether there is a c-th output element: it determines c elements
+   or shows that the output has ended (Take reached its count, TakeWhile met a failing element);
+   otherwise the source must be read to its end. *)
 EXTENDS SeqSpec, TLC
 
 \* a stage is a record [t, n, p, f, lit]
@@ -43,24 +44,31 @@ EagerStage(st) == st.t \in {"sort", "reverse", "distinct"}      \* need their wh
 RECURSIVE Ref(_, _)
 Ref(pipe, s) == IF pipe = <<>> THEN s ELSE Ref(Tail(pipe), StageOut(Head(pipe), s))
 
-\* What is known of the output when only a prefix of the source has been seen and its end has not:
-\* a Concat stage cannot yet deliver what it appends after the end of its input.
-RECURSIVE RefOpen(_, _)
-RefOpen(pp, s) == IF pp = <<>> THEN s
-                  ELSE RefOpen(Tail(pp), IF Head(pp).t = "concat" THEN s ELSE StageOut(Head(pp), s))
+\* What is known of the output when only a prefix of the source has been seen: the elements determined so far
+\* (out) and whether the output is complete whatever follows in the source (closed).  Take closes after n
+\* elements, TakeWhile / the left side of Span at the first failing element; a Concat stage can deliver what it
+\* appends only once its input is closed.  srcClosed: the source itself is known to have ended.
+Failing(s, p) == \E i \in 1..Len(s) : ~Pred(p, s[i])
+RECURSIVE Known(_, _, _)
+Known(pp, s, closed) ==
+  IF pp = <<>> THEN [out |-> s, closed |-> closed]
+  ELSE LET st == Head(pp) IN
+       CASE st.t = "take" -> Known(Tail(pp), STake(s, st.n), closed \/ Len(s) >= st.n)
+         [] st.t \in {"tw", "spanl"} -> Known(Tail(pp), STakeWhile(s, st.p), closed \/ Failing(s, st.p))
+         [] st.t = "concat" -> Known(Tail(pp), IF closed THEN s \o st.lit ELSE s, closed)
+         [] OTHER -> Known(Tail(pp), StageOut(st, s), closed)
 
 Prefix(s, m) == SubSeq(s, 1, m)
 MinOf(S) == CHOOSE x \in S : \A y \in S : x <= y
 MaxOf(a, b) == IF a > b THEN a ELSE b
-\* Need(c): the shortest source prefix that already determines c output elements; the whole source when
-\* the c-th element does not exist or only exists because the source has ended
+\* Need(c): the shortest source prefix that settles the question "is there a c-th output element, and which":
+\* it determines c elements, or it shows that the output has ended.  A finite source that has been read to its
+\* end settles everything.
+Settled(pp, s, m, c) == LET kn == Known(pp, Prefix(s, m), FALSE) IN Len(kn.out) >= c \/ kn.closed
 Need(pp, s, c) ==
   IF \E i \in DOMAIN pp : EagerStage(pp[i]) THEN Len(s)
-  ELSE IF Len(RefOpen(pp, s)) < c THEN Len(s)
-  ELSE MinOf({m \in 0..Len(s) : Len(RefOpen(pp, Prefix(s, m))) >= c})
-DropTotal(pp) == LET RECURSIVE Sum(_)
-                     Sum(i) == IF i > Len(pp) THEN 0 ELSE (IF pp[i].t = "drop" THEN pp[i].n ELSE 0) + Sum(i + 1)
-                 IN Sum(1)
+  ELSE MinOf({m \in 0..Len(s) : Settled(pp, s, m, c)} \cup {Len(s)})
+DropTotal(pp) == 0
 \* what construction may consume: a Drop(n) stage is eager and needs the first n outputs of the stages before it
 BuildNeed(pp, s) == LET RECURSIVE Mx(_)
                         Mx(i) == IF i > Len(pp) THEN 0
